@@ -171,6 +171,8 @@ def rule_cas_epoch_blind(ctx):
     prog = ctx.prog
     ex2 = Exec(prog, unroll=2)
     n = 0
+    n0 = 0
+    seen_exp = set()
     for name, (side, kind) in CAS_METHODS.items():
         b = prog.body(name)
         r.functions.add(name)
@@ -183,6 +185,21 @@ def rule_cas_epoch_blind(ctx):
             cas = _link_cas_events(ctx, p)
             if not cas:
                 continue
+            # (0) the first exchange compares the cell with the word of the `expected` snapshot the caller passed (mutation sweep 3:
+            #     `let mut expected_raw = desired.ptr;` - ledger, provenance and retry logic are all consistent with it)
+            exp_idx = [k for k in range(2, b.arg_count + 1) if "Snapshot<" in b.local_ty(k)]
+            if not exp_idx:
+                raise AnalysisError("CAS-EPOCH-BLIND: %s has no snapshot parameter to compare with" % name)
+            e0 = cas[0][1]
+            w = strip(e0.args[1])
+            ok0 = isinstance(w, tuple) and w[0] == "field" and w[1] == "ptr" and strip(w[2]) == ("arg", exp_idx[0], b.local_name(exp_idx[0]))
+            if (name, "exp") not in seen_exp:
+                seen_exp.add((name, "exp"))
+                n0 += 1
+                r.instance("%s: the cell is compared with the `%s` snapshot's word" % (name, b.local_name(exp_idx[0])), ok0)
+            if not ok0:
+                r.violate(name, "expected-operand", "the first exchange does not compare the cell with the word of the `%s` snapshot "
+                          "the caller passed (it compares with `%s`)" % (b.local_name(exp_idx[0]), show(w)[:60]), e0.loc())
             # (a) Err returns
             if p.exit[0] == "return":
                 (i, e, out) = cas[-1]
